@@ -28,6 +28,8 @@ ev = {
   "seams_sink_writes_and_op_boundaries": tot("seams"),
   "thread_switches": tot("thread_switches"),
   "thread_switches_inside_a_display": tot("thread_switches_inside_a_display"),
+  "allocator_seams": tot("allocator_seams"),
+  "thread_switches_at_an_allocation_inside_library_code": tot("thread_switches_at_an_allocation_inside_library_code"),
   "fault_kinds_fired": {
     "sink_returns_fmt_error_at_kth_write": fk("sink_error"),
     "sink_panics_at_kth_write_caught_by_caller": fk("sink_panic_caught"),
